@@ -1,9 +1,64 @@
-import SwayVerif.Driver.Util
-/-! Driver for C10 (stub — replace `answer`; keep `run`). -/
+import SwayVerif.Driver.AbiSexp
+/-!
+Driver for C10. Same cases as C09 (harness/src/bin/sv_c09.rs, `--mode c10`).
+agree: `is_encode_trivial::<T>()`, `is_decode_trivial::<T>()` and the mem-id test evaluate in the VM to what the model
+computes from the regenerated tables, and the real memory bytes are the model's memory image (on every byte the
+value determines). prop: whenever the PROGRAM says the type is trivially encodable (decodable), the real memory bytes
+and the logged bytes are the canonical encoding; decoding invalid patterns (bool byte ∉ {0,1}, unknown tag) reverts;
+decoding canonical bytes — for trivially decodable types a raw copy — reconstructs the value.
+-/
 namespace SwayVerif.Driver.C10
-open SwayVerif.Driver
+open SwayVerif.Abi SwayVerif.Driver SwayVerif.Driver.AbiSexp
 
-def answer (_line : String) : String := "unimplemented agree=0 prop=0"
+def answerEnc (known : Bool) (c i : List String) : String :=
+  match parseTy c with
+  | some (t, rest) => match parseVal rest with
+    | some (v, []) =>
+      match kvOf i "bytes" >>= hexBytes?, kvOf i "mem" >>= hexBytes?, flag? i "trivE", flag? i "trivD", flag? i "memEq" with
+      | some bytes, some mem, some trivE, some trivD, some memEq =>
+        if !hasType t v then "ill-typed agree=0 prop=0" else
+        let mE := isEncodeTrivial t
+        let mD := isDecodeTrivial t
+        let agree := mE == trivE && mD == trivD && memIdEq t == memEq && imageMatches (runtimeImage t v) mem
+        let prop := propTrivial t v trivE trivD mem && (!trivE || bytes == encode t v)
+        let why := if known && !prop && trivialEnumPaddedVariant t v && imageMatches (runtimeImage t v) mem
+          then " why=trivialenum-padded-variant" else ""
+        let pad := (runtimeImage t v).any (·.isNone)
+        s!"trivE={b01 mE} trivD={b01 mD} memEq={b01 (memIdEq t)} agree={b01 agree} prop={b01 prop} kind=enc class={className t} depth={depth t} size={lenClass mem.length} implTrivE={b01 trivE} implTrivD={b01 trivD} implMemEq={b01 memEq} padded={b01 pad}{why}"
+      | _, _, _, _, _ => "bad-impl agree=0 prop=0"
+    | _ => "bad-val agree=0 prop=0"
+  | none => "bad-ty agree=0 prop=0"
+
+def answerDec (known : Bool) (c i : List String) : String :=
+  match c with
+  | kind :: rest => match parseTy rest with
+    | some (t, [h]) => match hexBytes? h, parseObs i with
+      | some bs, some obs =>
+        let model := decode t bs
+        let pred := predictDecode t bs
+        let agree := match pred, obs with
+          | some v, .ok re => implEncode t v == re || (known && imageMatches (runtimeImage t v) re)
+          | none, .revert => true
+          | _, _ => false
+        let prop := propDecode t bs obs
+        let why := if known && !prop && (match model with | some (w, _) => trivialEnumPaddedVariant t w | none => false)
+          then " why=trivialenum-padded-variant" else ""
+        let m := match model with | some (v, _) => "ok " ++ showHexBytes (encode t v) | none => "revert"
+        s!"{m} agree={b01 agree} prop={b01 prop} kind=dec-{kind} class={className t} depth={depth t} len={lenClass bs.length} valid={b01 model.isSome} trivD={b01 (isDecodeTrivial t)}{why}"
+      | _, _ => "bad-impl agree=0 prop=0"
+    | _ => "bad-ty agree=0 prop=0"
+  | [] => "bad-case agree=0 prop=0"
+
+def answer (line : String) : String :=
+  let ts := lex line
+  let c := ts.takeWhile (· ≠ ";;")
+  let i := (ts.dropWhile (· ≠ ";;")).drop 1
+  match c with
+  | "enc" :: r => answerEnc false r i
+  | "enc-trivialenum" :: r => answerEnc true r i
+  | "dec" :: r => answerDec false r i
+  | "dec-trivialenum" :: r => answerDec true r i
+  | _ => "bad-op agree=0 prop=0"
 
 def run : IO Unit := do
   lineLoop (← IO.getStdin) (← IO.getStdout) answer
